@@ -55,3 +55,35 @@ package filter
 //@   modifies verify.ResponseVerifier.gUnmetRes
 //@   ensures[every-response-verifier-below-is-reset] cntRes(f.tresmod) == 0 && cntRes(f.fresmod) == 0
 //@   ensures forall o *int :: o.gUnmetRes == old(o.gUnmetRes) || o.gUnmetRes == 0
+
+// C12: the branch setters install exactly the given modifier, or the no-op modifier for nil.
+//@ func (*Filter).RequestWhenTrue
+//@   serves C12
+//@   requires f != nil
+//@   modifies f.treqmod
+//@   ensures[nil-branch-becomes-the-noop-modifier] f.treqmod == ite(mod == nil, noop, mod)
+//@ func (*Filter).RequestWhenFalse
+//@   serves C12
+//@   requires f != nil
+//@   modifies f.freqmod
+//@   ensures[nil-branch-becomes-the-noop-modifier] f.freqmod == ite(mod == nil, noop, mod)
+//@ func (*Filter).ResponseWhenTrue
+//@   serves C12
+//@   requires f != nil
+//@   modifies f.tresmod
+//@   ensures[nil-branch-becomes-the-noop-modifier] f.tresmod == ite(mod == nil, noop, mod)
+//@ func (*Filter).ResponseWhenFalse
+//@   serves C12
+//@   requires f != nil
+//@   modifies f.fresmod
+//@   ensures[nil-branch-becomes-the-noop-modifier] f.fresmod == ite(mod == nil, noop, mod)
+//@ func (*Filter).SetRequestCondition
+//@   serves C12
+//@   requires f != nil
+//@   modifies f.reqcond
+//@   ensures f.reqcond == reqcond
+//@ func (*Filter).SetResponseCondition
+//@   serves C12
+//@   requires f != nil
+//@   modifies f.rescond
+//@   ensures f.rescond == rescond
